@@ -11,6 +11,7 @@ import (
 	"strconv"
 	"strings"
 	"time"
+	"unicode/utf8"
 
 	internal "github.com/influxdata/influxql/internal"
 	"google.golang.org/protobuf/proto"
@@ -1574,6 +1575,13 @@ func matchRegex(re *syntax.Regexp) ([]string, bool) {
 
 	switch re.Op {
 	case syntax.OpLiteral:
+		// Runes that have no UTF-8 encoding of their own (surrogates, U+FFFD)
+		// cannot be compared as strings.
+		for _, r := range re.Rune {
+			if !isEncodableRune(r) {
+				return nil, false
+			}
+		}
 		// We can rewrite this regex.
 		return []string{string(re.Rune)}, true
 	case syntax.OpCapture:
@@ -1629,13 +1637,17 @@ func matchRegex(re *syntax.Regexp) ([]string, bool) {
 			sz += int(re.Rune[i+1]) - int(re.Rune[i]) + 1
 		}
 
-		if sz > maxLiterals {
+		if sz > maxLiterals || sz == 0 {
+			// Too many literals, or a class that matches nothing.
 			return nil, false
 		}
 
 		names := make([]string, 0, sz)
 		for i := 0; i < len(re.Rune); i += 2 {
 			for r := int(re.Rune[i]); r <= int(re.Rune[i+1]); r++ {
+				if !isEncodableRune(rune(r)) {
+					return nil, false
+				}
 				names = append(names, string([]rune{rune(r)}))
 			}
 		}
@@ -1655,6 +1667,13 @@ func matchRegex(re *syntax.Regexp) ([]string, bool) {
 		return names, true
 	}
 	return nil, false
+}
+
+// isEncodableRune reports whether a rune of a regular expression stands for
+// exactly one string: itself encoded as UTF-8. Surrogates are written out as
+// U+FFFD, and U+FFFD is also what every invalid byte of the input decodes to.
+func isEncodableRune(r rune) bool {
+	return utf8.ValidRune(r) && r != utf8.RuneError
 }
 
 // RewriteDistinct rewrites the expression to be a call for map/reduce to work correctly.
